@@ -96,11 +96,11 @@ pub fn garbled_copies(genuine: &[u8]) -> Vec<Vec<u8>> {
     }
     for pos in 1..n.min(24) {
         for v in [0x3fu8, 0x7f, 0xff] {
-            if genuine[pos] != v {
-                let mut f = genuine.to_vec();
-                f[pos] = v;
-                out.push(f);
-            }
+            // (the number of copies must not depend on the bytes themselves: credential ids differ
+            // from run to run)
+            let mut f = genuine.to_vec();
+            f[pos] = if genuine[pos] == v { v ^ 0x55 } else { v };
+            out.push(f);
         }
     }
     for pos in n.saturating_sub(16)..n {
